@@ -432,10 +432,32 @@ def std_call(e, st, fr, fname, argv):
         if o.variant == 'Ok':
             return o.fields[0]
         raise Panic('Result::unwrap on Err')
+    m = re.match(r'^(std::result::)?Result::<.*>::(ok|err|is_ok|is_err)$', n)
+    if m:
+        _note(e, 'Result::' + m.group(2))
+        r = argv[0] if m.group(2) in ('ok', 'err') else deref_all(e, st, argv[0])
+        k = m.group(2)
+        if k == 'ok':
+            return some(r.fields[0]) if r.variant == 'Ok' else NONE()
+        if k == 'err':
+            return some(r.fields[0]) if r.variant == 'Err' else NONE()
+        return (r.variant == 'Ok') == (k == 'is_ok')
     if re.match(r'^(std::option::)?Option::<.*>::(is_some|is_none)$', n):
         _note(e, 'Option::is_some')
         o = deref_all(e, st, argv[0])
         return (o.variant == 'Some') == n.endswith('is_some')
+    m = re.match(r'^(std::option::)?Option::<.*>::(replace|take|insert)$', n)
+    if m:
+        _note(e, 'Option::' + m.group(2))
+        p = argv[0]
+        old = e.load(st, p)
+        if m.group(2) == 'take':
+            e.store(st, p, NONE())
+            return old
+        e.store(st, p, some(argv[1]))
+        if m.group(2) == 'replace':
+            return old
+        return Ptr(p.cell, p.path + (('downcast', 'Some'), ('field', 0)))
     if re.match(r'^(std::option::)?Option::<.*>::as_ref$', n):
         _note(e, 'Option::as_ref')
         p = argv[0]
